@@ -104,3 +104,95 @@ Theorem T08_gen_populate_children_legal :
                forall c, In c ks -> exists mv, pn_move c = Some mv /\ In mv (table (size p)) /\
                                                Tak.move p mv = Some (pn_position c).
 Proof. exact gen_populate_children_legal. Qed.
+
+(* ====================================================================== *)
+(* The search loop (proofs/MctsGenSearch.v): descend, analyze_tree, analyze, get_move, select_root_move, tree_probs
+   regenerated over the tree-as-heap of model/MctsSem.v.  The Python code mutates Node objects in place through
+   references; the translation threads one immutable tree and addresses a node by its PLACE (child indices from the
+   searched node) - valid because the objects form a tree; that proviso (no aliasing) is not proved here, it is what
+   C08's snapshots and C05 check.  Oracles of the theorems: o_multinomial = the choice stream (refuses a missing
+   distribution), o_evaluate = the evaluator stream (next_eval), o_dirichlet = the noise vector of this call,
+   o_monotonic = a clock (time_limit = 0: the deadline is float("inf"), kept symbolic, never reached).
+   solve total = the solver returns (C10). *)
+From TV Require Import proofs.MctsGenSearch.
+
+(* END TO END: for time_limit = 0 and simulation_limit = limit > 0 the regenerated analyze_tree, with fuel that does
+   not run out, computes exactly model/Mcts.v's analyze on the same streams (one evaluator answer per non-terminal
+   leaf, one choice per descent step, the Dirichlet sample at the root's first expansion) *)
+Theorem T08_gen_analyze_tree_eq :
+  forall F f_sqrt f_mul f_div_int (solve : list Q -> list Q -> F -> res (list Q)) (C : F) cutoff mix alpha limit,
+  (forall pi q lam, exists r, solve pi q lam = Ok r) -> (0 < cutoff)%Q ->
+  forall noise, is_some alpha = is_some noise ->
+  forall css t evs rest fuel,
+  Good cutoff t -> valid_analyze cutoff mix limit css t noise evs -> (0 < limit)%nat -> noise_ok noise t evs ->
+  (length css < fuel)%nat -> Forall (fun cs => (length cs < fuel)%nat) css ->
+  MctsGen.analyze_tree ostate o_multinomial o_monotonic o_evaluate o_dirichlet F f_sqrt f_mul f_div_int solve C fuel
+    (search_cfg cutoff mix alpha limit) (py_of t) [] (mkOst (flat css ++ rest) evs noise) =
+  Ok (py_of (fst (analyze cutoff mix limit css t noise evs)),
+      mkOst (flat (unused cutoff mix limit noise css t evs) ++ rest) (snd (analyze cutoff mix limit css t noise evs)) noise).
+Proof. exact gen_analyze_tree_eq. Qed.
+(* descend: follows the choice stream from the node at `pl` down to a leaf; the references it returns are the places
+   of the path; one sampler answer per step *)
+Theorem T08_gen_descend_eq :
+  forall F f_sqrt f_mul f_div_int (solve : list Q -> list Q -> F -> res (list Q)) (C : F) cutoff mix alpha limit,
+  (forall pi q lam, exists r, solve pi q lam = Ok r) ->
+  forall cs t hp pl path0 rest evs nz fuel0 fuel,
+  valid cs t -> Good cutoff t -> pt_get hp pl = Ok (py_of t) -> (length cs < fuel)%nat ->
+  MctsGen.descend_while1 ostate o_multinomial F f_sqrt f_mul f_div_int solve C fuel0 fuel
+    (search_cfg cutoff mix alpha limit) hp pl path0 (mkOst (zs cs ++ rest) evs nz) =
+  Ok (path0 ++ prefixes pl cs, mkOst rest evs nz).
+Proof. exact descend_loop_ok. Qed.
+(* C08 transported to the regenerated loop (C08_analyze_good, root_visits_fresh / _reused, position_untouched) *)
+Theorem T08_gen_analyze_tree_good :
+  forall F f_sqrt f_mul f_div_int (solve : list Q -> list Q -> F -> res (list Q)) (C : F) cutoff mix alpha limit,
+  (forall pi q lam, exists r, solve pi q lam = Ok r) -> (0 < cutoff)%Q ->
+  forall noise, is_some alpha = is_some noise ->
+  forall css t evs rest fuel,
+  Good cutoff t -> valid_analyze cutoff mix limit css t noise evs -> (0 < limit)%nat -> noise_ok noise t evs ->
+  (length css < fuel)%nat -> Forall (fun cs => (length cs < fuel)%nat) css ->
+  exists t' st',
+    MctsGen.analyze_tree ostate o_multinomial o_monotonic o_evaluate o_dirichlet F f_sqrt f_mul f_div_int solve C fuel
+      (search_cfg cutoff mix alpha limit) (py_of t) [] (mkOst (flat css ++ rest) evs noise) = Ok (py_of t', st') /\
+    Good cutoff t' /\ n_sims t' = Nat.max limit (n_sims t) /\ n_pos t' = n_pos t /\
+    pn_simulations (py_of t') = Z.of_nat (Nat.max limit (n_sims t)) /\ pn_position (py_of t') = n_pos t.
+Proof. exact gen_analyze_tree_good. Qed.
+(* analyze(p): a new tree on p *)
+Theorem T08_gen_analyze_eq :
+  forall F f_sqrt f_mul f_div_int (solve : list Q -> list Q -> F -> res (list Q)) (C : F) cutoff mix alpha limit,
+  (forall pi q lam, exists r, solve pi q lam = Ok r) -> (0 < cutoff)%Q ->
+  forall noise, is_some alpha = is_some noise ->
+  forall css p evs rest fuel,
+  valid_analyze cutoff mix limit css (root p) noise evs -> (0 < limit)%nat -> noise_ok noise (root p) evs ->
+  (length css < fuel)%nat -> Forall (fun cs => (length cs < fuel)%nat) css ->
+  MctsGen.analyze ostate o_multinomial o_monotonic o_evaluate o_dirichlet F f_sqrt f_mul f_div_int solve C fuel
+    (search_cfg cutoff mix alpha limit) p (mkOst (flat css ++ rest) evs noise) =
+  Ok (py_of (fst (analyze cutoff mix limit css (root p) noise evs)),
+      mkOst (flat (unused cutoff mix limit noise css (root p) evs) ++ rest)
+            (snd (analyze cutoff mix limit css (root p) noise evs)) noise).
+Proof. exact gen_analyze_eq. Qed.
+(* C09 transported: select_root_move on an expanded root returns the sampled child's move, which is legal *)
+Theorem T08_gen_select_root_move_legal :
+  forall F f_sqrt f_mul f_div_int (solve : list Q -> list Q -> F -> res (list Q)) (C : F) cutoff,
+  (forall pi q lam, exists r, solve pi q lam = Ok r) ->
+  forall t ks c k rest evs nz,
+  Good cutoff t -> n_kids t = Some ks -> nth_error ks c = Some k ->
+  MctsGen.select_root_move ostate o_multinomial F f_sqrt f_mul f_div_int solve C (py_of t) []
+    (mkOst (Z.of_nat c :: rest) evs nz) = Ok (n_move k, mkOst rest evs nz) /\
+  exists m, n_move k = Some m /\ In m (table (size (n_pos t))) /\ Tak.move (n_pos t) m = Some (n_pos k).
+Proof. exact gen_select_root_move_legal. Qed.
+(* ... and get_move(p) with a budget of limit > 0 simulations returns a legal move of p whenever the searched root
+   has children *)
+Theorem T08_gen_get_move_legal :
+  forall F f_sqrt f_mul f_div_int (solve : list Q -> list Q -> F -> res (list Q)) (C : F) cutoff mix alpha limit,
+  (forall pi q lam, exists r, solve pi q lam = Ok r) -> (0 < cutoff)%Q ->
+  forall noise, is_some alpha = is_some noise ->
+  forall css p evs c rest fuel,
+  valid_analyze cutoff mix limit css (root p) noise evs -> (0 < limit)%nat -> noise_ok noise (root p) evs ->
+  (length css < fuel)%nat -> Forall (fun cs => (length cs < fuel)%nat) css ->
+  unused cutoff mix limit noise css (root p) evs = [] ->
+  forall ks k, n_kids (fst (analyze cutoff mix limit css (root p) noise evs)) = Some ks -> nth_error ks c = Some k ->
+  exists m st',
+    MctsGen.get_move ostate o_multinomial o_monotonic o_evaluate o_dirichlet F f_sqrt f_mul f_div_int solve C fuel
+      (search_cfg cutoff mix alpha limit) p (mkOst (flat css ++ Z.of_nat c :: rest) evs noise) = Ok (Some m, st') /\
+    In m (table (size p)) /\ Tak.move p m <> None.
+Proof. exact gen_get_move_legal. Qed.
